@@ -44,8 +44,10 @@ class Attribute(dict):
     def __str__(self) -> str:
         """Return a htmlized representation for attributes."""
         # note: an attribute without a value (`<input disabled>`) has the value None
+        # (a double quote inside a value, e.g. from `title='say "hi"'`, has to be escaped)
         return " ".join(
-            key if value is None else f'{key}="{value}"' for key, value in self.items()
+            key if value is None else '{}="{}"'.format(key, str(value).replace('"', "&quot;"))
+            for key, value in self.items()
         )
 
 
